@@ -78,6 +78,21 @@ def build(S, v):
         o = object.__new__(cls)
         for k, fs in S.fields.items():
             val = build(fs, v.get(k) if isinstance(v, dict) else getattr(v, k))
+            if isinstance(val, int) and not isinstance(val, bool):
+                # a field modelled as an integer whose declared type is an IntEnum (MachineChoice): the member with that value
+                try:
+                    import enum, sys as _sys
+                    ann = getattr(cls, '__annotations__', {}).get(k)
+                    if isinstance(ann, str):
+                        ann = eval(ann, vars(_sys.modules[cls.__module__]))
+                    if isinstance(ann, type) and issubclass(ann, enum.IntEnum):
+                        val = ann(val)
+                except ReqNotMet:
+                    raise
+                except ValueError:
+                    raise ReqNotMet(f'{k}={val} is not a member of the enumeration')
+                except Exception:
+                    pass
             try:
                 object.__setattr__(o, k, val)
             except AttributeError:
